@@ -13,6 +13,7 @@ package props
 import (
 	"context"
 	"encoding/json"
+	"errors"
 	"fmt"
 	"sort"
 	"strings"
@@ -22,7 +23,7 @@ import (
 )
 
 type c20Decl struct {
-	API   string `json:"api"` // workflow | graph
+	API   string `json:"api"` // workflow | graph | chain (chain: Nodes without Ins, appended in order)
 	InT   string `json:"inT"`
 	OutT  string `json:"outT"`
 	State *int   `json:"state"`
@@ -57,6 +58,9 @@ type c20DCase struct {
 	Decl     *c20Decl `json:"decl"`
 	Compiles []c20Op  `json:"compiles"`
 	Shape    string   `json:"shape,omitempty"` // what the generator aimed at (informational)
+	// calls after the Compiles (c20_nest.go): Add* on graphs of the tree, then Compiles of the outermost again
+	Mods       []c20DMod `json:"mods,omitempty"`
+	Recompiles []c20Op   `json:"recompiles,omitempty"`
 }
 
 type c20DModel struct {
@@ -65,12 +69,20 @@ type c20DModel struct {
 	// accept / reject of some Compile depends on the order in which Workflow.compile replays the
 	// recorded inputs (it ranges over a Go map): the model answers for declaration order
 	Sensitive bool `json:"sensitive"`
+	// later calls: not predicted (no Compile succeeded) | class of every mod, answers of the recompiles
+	LaterSkip bool       `json:"laterSkip,omitempty"`
+	Mods      []string   `json:"mods,omitempty"`
+	ReOut     []string   `json:"reout,omitempty"`
+	ReKinds   [][]string `json:"rekinds,omitempty"`
 }
 
 const c20DOrderSig = "C20:nondeterministic:workflow-compile:input-replay-order"
 
 type c20DObs struct {
 	Out   []string `json:"out"` // ok | error/<class> | panic
+	Mods  []string `json:"mods,omitempty"`  // ok | fresh | stored | compiled | panic | silent
+	ReOut []string `json:"reout,omitempty"` // like Out, for the recompiles
+	R1    []string `json:"r1,omitempty"`    // first runnable: run after the Compiles and again after the later calls
 	Notes []string `json:"notes,omitempty"`
 }
 
@@ -123,14 +135,27 @@ func c20WfAddIns(n *compose.WorkflowNode, ins []c20WfIn) {
 
 // c20BuildDecl declares the graph (and, first, the graphs it uses as nodes) through the public API.
 func c20BuildDecl(d *c20Decl) (compose.AnyGraph, c20DCompile) {
-	if d.API == "workflow" {
+	g, compile := c20BuildDeclR(d, nil, nil)
+	return g, func(ctx context.Context, opts ...compose.GraphCompileOption) error {
+		_, err := compile(ctx, opts...)
+		return err
+	}
+}
+
+// c20BuildDeclR: the same, every declared graph registered under its path of graph-node keys
+// (reg may be nil); the compile function also hands back the runnable.
+func c20BuildDeclR(d *c20Decl, path []string, reg c20DReg) (compose.AnyGraph, c20CompileFn) {
+	sub := func(key string) []string { return append(append([]string{}, path...), key) }
+	switch d.API {
+	case "workflow":
 		wf := c20Workflows[d.InT+">"+d.OutT](c20StateOpt(d.State)...).(c20WfBX)
+		reg.put(path, wf)
 		for i := range d.Nodes {
 			n := &d.Nodes[i]
 			var wn *compose.WorkflowNode
 			switch {
 			case n.Sub != nil:
-				child, _ := c20BuildDecl(n.Sub)
+				child, _ := c20BuildDeclR(n.Sub, sub(n.Key), reg)
 				wn = wf.addGraph(n.Key, child, c20SubNodeOpts(n.SubOpts)...)
 			case n.PT:
 				wn = wf.addPassthrough(n.Key)
@@ -149,17 +174,31 @@ func c20BuildDecl(d *c20Decl) (compose.AnyGraph, c20DCompile) {
 			}
 			wf.addBranch(b.S, c20Branches[b.T](b.Pick, ends))
 		}
-		return wf.anyGraph(), func(ctx context.Context, opts ...compose.GraphCompileOption) error {
-			_, err := wf.compile(ctx, opts...)
-			return err
+		return wf.anyGraph(), func(ctx context.Context, opts ...compose.GraphCompileOption) (c20RunFn, error) {
+			return wf.compile(ctx, opts...)
+		}
+	case "chain":
+		ch := c20Chains[d.InT+">"+d.OutT](c20StateOpt(d.State)...).(c20ChainBX)
+		reg.put(path, ch)
+		for i := range d.Nodes {
+			n := &d.Nodes[i]
+			if n.PT {
+				ch.appendPassthrough()
+			} else {
+				ch.appendLambda(c20Lambdas[n.In+">"+n.Out](n.Dyn))
+			}
+		}
+		return ch.anyGraph(), func(ctx context.Context, opts ...compose.GraphCompileOption) (c20RunFn, error) {
+			return ch.compile(ctx, opts...)
 		}
 	}
 	g, compile := c20Graphs[d.InT+">"+d.OutT](c20StateOpt(d.State)...)
+	reg.put(path, g)
 	for i := range d.Ops {
 		op := &d.Ops[i]
 		switch op.Op {
 		case "sub":
-			child, _ := c20BuildDecl(op.Sub)
+			child, _ := c20BuildDeclR(op.Sub, sub(op.Key), reg)
 			_ = g.(c20GraphNodeAdder).AddGraphNode(op.Key, child, c20SubNodeOpts(op.SubOpts)...)
 		case "node":
 			if op.PT {
@@ -177,16 +216,16 @@ func c20BuildDecl(d *c20Decl) (compose.AnyGraph, c20DCompile) {
 			_ = g.AddBranch(op.S, c20Branches[op.T](op.Pick, ends))
 		}
 	}
-	return g.(compose.AnyGraph), func(ctx context.Context, opts ...compose.GraphCompileOption) error {
-		_, err := compile(ctx, opts...)
-		return err
-	}
+	return g.(compose.AnyGraph), compile
 }
 
 // c20ErrClass: the compile-time checks by name, every other error (those of the Add* calls,
 // kept by the builder and returned by Compile) as "build".  Read off the message: the errors
 // are plain errors.New / fmt.Errorf values without a type or sentinel.
 func c20ErrClass(err error) string {
+	if errors.Is(err, compose.ErrGraphCompiled) || errors.Is(err, compose.ErrChainCompiled) {
+		return "compiled"
+	}
 	m := err.Error()
 	switch {
 	case strings.Contains(m, "start node not set"):
@@ -209,30 +248,48 @@ func c20ErrClass(err error) string {
 	return "build"
 }
 
-func c20DExec(c *c20DCase) c20DObs {
+func c20DCompileClass(compile c20CompileFn, op *c20Op, what string, obs *c20DObs) (string, c20RunFn) {
+	var err error
+	var run c20RunFn
+	p, pv := vh.Safely(func() { run, err = compile(context.Background(), c20CompileOpts(op)...) })
+	switch {
+	case p:
+		obs.Notes = append(obs.Notes, fmt.Sprintf("%s panicked: %v", what, pv))
+		return "panic", nil
+	case err == nil:
+		return "ok", run
+	}
+	obs.Notes = append(obs.Notes, fmt.Sprintf("%s: %v", what, err))
+	return "error/" + c20ErrClass(err), nil
+}
+
+// c20DExec declares the tree afresh, runs the Compiles and – when later is set – the later
+// calls (mods on the graphs of the tree, recompiles of the outermost).
+func c20DExec(c *c20DCase) c20DObs { return c20DExecL(c, true) }
+
+func c20DExecL(c *c20DCase, later bool) c20DObs {
 	var obs c20DObs
-	var compile c20DCompile
-	if p, pv := vh.Safely(func() { _, compile = c20BuildDecl(c.Decl) }); p {
+	var compile c20CompileFn
+	reg := c20DReg{}
+	if p, pv := vh.Safely(func() { _, compile = c20BuildDeclR(c.Decl, nil, reg) }); p {
 		obs.Notes = append(obs.Notes, fmt.Sprintf("declaring panicked: %v", pv))
 		for range c.Compiles {
 			obs.Out = append(obs.Out, "panic")
 		}
 		return obs
 	}
+	var first c20RunFn
 	for i := range c.Compiles {
-		var err error
-		p, pv := vh.Safely(func() { err = compile(context.Background(), c20CompileOpts(&c.Compiles[i])...) })
-		switch {
-		case p:
-			obs.Out = append(obs.Out, "panic")
-			obs.Notes = append(obs.Notes, fmt.Sprintf("compile %d panicked: %v", i, pv))
-		case err == nil:
-			obs.Out = append(obs.Out, "ok")
-		default:
-			obs.Out = append(obs.Out, "error/"+c20ErrClass(err))
-			obs.Notes = append(obs.Notes, fmt.Sprintf("compile %d: %v", i, err))
+		cls, run := c20DCompileClass(compile, &c.Compiles[i], fmt.Sprintf("compile %d", i), &obs)
+		obs.Out = append(obs.Out, cls)
+		if first == nil {
+			first = run
 		}
 	}
+	if !later || (len(c.Mods) == 0 && len(c.Recompiles) == 0) {
+		return obs
+	}
+	c20DLater(c, reg, compile, first, &obs)
 	return obs
 }
 
@@ -335,7 +392,7 @@ func c20DCompare(c *c20DCase, m *c20DModel, obs *c20DObs) *c20Diff {
 			}
 		}
 	}
-	return nil
+	return c20DCompareLater(c, m, obs, shape)
 }
 
 func c20DCheck(ctx *vh.Ctx, c *c20DCase, repeats int) (*c20Diff, *c20DModel, *c20DObs, error) {
@@ -347,7 +404,7 @@ func c20DCheck(ctx *vh.Ctx, c *c20DCase, repeats int) (*c20Diff, *c20DModel, *c2
 	if err := json.Unmarshal(raw, &m); err != nil {
 		return nil, nil, nil, err
 	}
-	obs := c20DExec(c)
+	obs := c20DExecL(c, !m.LaterSkip)
 	if d := c20DCompare(c, &m, &obs); d != nil {
 		if m.Sensitive && !strings.HasPrefix(d.sig, "C20:panic:") {
 			// the model says the outcome of this declaration depends on the replay order
@@ -362,7 +419,10 @@ func c20DCheck(ctx *vh.Ctx, c *c20DCase, repeats int) (*c20Diff, *c20DModel, *c2
 		first[i] = c20DCoarse(o)
 	}
 	for k := 1; k < repeats; k++ {
-		o := c20DExec(c)
+		o := c20DExecL(c, !m.LaterSkip)
+		if d := c20DLaterStable(&obs, &o, k); d != nil {
+			return d, &m, &obs, nil
+		}
 		for i := range o.Out {
 			if i >= len(first) || c20DCoarse(o.Out[i]) != first[i] {
 				if c20DHasBadBranchEnd(c.Decl) && (o.Out[i] == "panic" || (i < len(first) && first[i] == "panic")) {
@@ -391,7 +451,9 @@ func c20DOne(ctx *vh.Ctx, c *c20DCase, repeats int) error {
 	kb, _ := json.Marshal(struct {
 		D *c20Decl
 		C []c20Op
-	}{c.Decl, c.Compiles})
+		M []c20DMod
+		R []c20Op
+	}{c.Decl, c.Compiles, c.Mods, c.Recompiles})
 	compiled := false
 	for _, o := range obs.Out {
 		if o == "ok" {
@@ -412,6 +474,7 @@ func c20DOne(ctx *vh.Ctx, c *c20DCase, repeats int) error {
 		ctx.Res.Dist("decl.replay-order-sensitive")
 	}
 	ctx.Res.Dist(fmt.Sprintf("decl.compiles=%d", len(c.Compiles)))
+	c20DLaterDist(ctx, c, m)
 	if compiled {
 		ctx.Res.Dist("compiled")
 	}
